@@ -3,6 +3,7 @@ package interpreter
 import (
 	"fmt"
 	"math"
+	"reflect"
 	"strconv"
 
 	"github.com/ah-naf/borno/ast"
@@ -859,7 +860,32 @@ func isTruthy(value interface{}) bool {
 }
 
 func isEqual(a, b interface{}) bool {
+	// Strings are []rune (literals) or string (concatenation, input): compare by content.
+	if r, ok := a.([]rune); ok {
+		a = string(r)
+	}
+	if r, ok := b.([]rune); ok {
+		b = string(r)
+	}
+	// Arrays and objects are references that Go cannot compare with ==
+	// (it panics): they are equal only to themselves.
+	switch a.(type) {
+	case []interface{}, map[string]interface{}:
+		return sameReference(a, b)
+	}
+	switch b.(type) {
+	case []interface{}, map[string]interface{}:
+		return false
+	}
 	return a == b
+}
+
+func sameReference(a, b interface{}) bool {
+	va, vb := reflect.ValueOf(a), reflect.ValueOf(b)
+	if va.Kind() != vb.Kind() || va.Len() != vb.Len() {
+		return false
+	}
+	return va.Pointer() == vb.Pointer()
 }
 
 func getLineNumber(expr ast.Expr) int {
